@@ -110,7 +110,12 @@ func MakeType(t *rapid.T, base string, mod *Module, label string) *Type {
 		ty.IdBase = "idbase"
 		ty.Idents = []string{"id-a", "id-b", "id-c"}
 	case "union":
-		switch rapid.IntRange(0, 3).Draw(t, label+"-members") {
+		switch rapid.IntRange(0, 4).Draw(t, label+"-members") {
+		case 4:
+			if mod != nil && len(mod.Identities) == 0 {
+				mod.Identities = []Identity{{"idbase", ""}, {"id-a", "idbase"}, {"id-b", "idbase"}, {"id-c", "id-a"}, {"unrelated", ""}}
+			}
+			ty.Members = []*Type{{Base: "int32"}, {Base: "identityref", IdBase: "idbase", Idents: []string{"id-a", "id-b", "id-c"}}}
 		case 0:
 			ty.Members = []*Type{{Base: "decimal64", FD: 8}, {Base: "string"}}
 		case 1:
@@ -295,7 +300,7 @@ func (g *genState) leafrefs() {
 	for _, n := range g.mod.Top {
 		if n.Kind == "leaf" {
 			switch n.Type.Base {
-			case "empty", "bits", "binary", "identityref", "leafref":
+			case "empty", "leafref":
 			default:
 				targets = append(targets, n)
 			}
@@ -316,8 +321,8 @@ func (g *genState) leafrefs() {
 			}
 			if !key && !isTarget && rapid.IntRange(0, 9).Draw(g.t, "leafref?") == 0 {
 				tg := targets[rapid.IntRange(0, len(targets)-1).Draw(g.t, "leafref-target")]
-				if n.Kind == "leaf-list" && tg.Type.Base == "union" {
-					return // the harness has no leaf-lists of unions
+				if n.Kind == "leaf-list" && (tg.Type.Base == "union" || tg.Type.Base == "binary") {
+					return // the harness has no leaf-lists of unions or binaries
 				}
 				n.Type = &Type{Base: "leafref", Path: "/" + tg.Name, Target: tg.Type}
 				n.Default, n.Defaults = nil, nil
